@@ -94,12 +94,21 @@ def run(ctx, acts, api):
 
     # 3. direction B
     wd = ctx.workdir("traces")
-    runs = [(api, 4, 400), ("mixed", 3, 400)] if quick else [(api, 30, 600), ("mixed", 20, 600)]
+    # ("runtime": every build is a run of the scripted buildpack executable through the real libcnb_runtime,
+    #  the harness plays the lifecycle between builds)
+    runs = [(api, 4, 400), ("mixed", 3, 400), ("runtime", 3, 5)] if quick else [(api, 30, 600), ("mixed", 20, 600), ("runtime", 20, 8)]
     validated = 0
     events = 0
     for (mode, hist, ev) in runs:
         trace = os.path.join(wd, f"{mode}.ndjson")
-        d = vlib.harness(ctx, "layers_drive", [trace, str(hist), str(ev), mode])
+        if mode == "runtime":
+            d = vlib.harness(ctx, "history_drive", [trace, str(hist), str(ev), "40"])
+            for m in d["mismatches"]:
+                if not m["signature"].startswith("C06:"):
+                    ctx.violation(m["signature"], m["detail"], m["case"], "history_drive")
+            d["extra"]["per_action"] = {"builds": d["evaluations"]}
+        else:
+            d = vlib.harness(ctx, "layers_drive", [trace, str(hist), str(ev), mode])
         rej = validate_trace(ctx, trace, f"trace-{mode}")
         lines = open(trace).read().splitlines()
         if rej:
